@@ -776,6 +776,69 @@ theorem combOnChunk_ok (cfg : CombCfg) (st : CombSt) (S N OS : List Text) (h : K
     obtain ⟨a1, a2, a3, a4⟩ := combPass_ok cfg st S N OS h chunk m si ol oc ni
     exact ⟨a1, a2, a3, Or.inl a4⟩
 
+/-- the same, telling which alternative applies: composed exactly when the outer chunk points into the inner source and the search
+finds a mapped segment; otherwise pass-through / fall-back (and unmapped when removal is requested for a chunk of the inner source) -/
+theorem combOnChunk_sem (cfg : CombCfg) (st : CombSt) (S N OS : List Text) (h : KInv cfg st S N OS) (chunk : Option Text) (m : Mapping)
+    (hm : ∀ o, m.orig = some o → ∀ k, o.name = some k → k < st.nameIndexValueMapping.length) :
+    (∀ idx, m.si = st.innerSourceIndex → findInner st m.ol m.oc = some idx →
+        0 ≤ ((st.lineData.getD (m.ol.toNat - 1) {}).segs.getD idx default).src →
+        FoundSem st (S ++ annS (combOnChunk cfg st chunk m).2) (N ++ annN (combOnChunk cfg st chunk m).2) chunk m
+          ((st.lineData.getD (m.ol.toNat - 1) {}).segs.getD idx default) m.oc m.ni (combOnChunk cfg st chunk m).2)
+    ∧ ((m.si = st.innerSourceIndex → ∀ idx, findInner st m.ol m.oc = some idx → ((st.lineData.getD (m.ol.toNat - 1) {}).segs.getD idx default).src < 0) →
+        PassSem (S ++ annS (combOnChunk cfg st chunk m).2) (N ++ annN (combOnChunk cfg st chunk m).2) OS st.nameIndexValueMapping chunk m m.si m.ol m.oc m.ni
+          (combOnChunk cfg st chunk m).2
+        ∧ (m.si = st.innerSourceIndex → cfg.remove = true → ∀ t mm, Ev.chunk t mm ∈ (combOnChunk cfg st chunk m).2 → mm.orig = none)) := by
+  rw [combOnChunk_eq]
+  have hni' : 0 ≤ m.ni → m.ni.toNat < st.nameIndexValueMapping.length := by
+    intro h0
+    unfold Mapping.ni at h0 ⊢
+    cases hmo : m.orig with
+    | none => rw [hmo] at h0; simp only at h0; omega
+    | some o =>
+      rw [hmo] at h0; simp only at h0 ⊢
+      cases hon : o.name with
+      | none => rw [hon] at h0; simp only at h0; omega
+      | some n =>
+        simp only [Int.toNat_natCast]
+        exact hm o hmo n hon
+  have hsi1 : -1 ≤ m.si := by
+    unfold Mapping.si
+    cases m.orig with
+    | none => simp only; omega
+    | some o => simp only; omega
+  generalize m.si = si at hsi1 ⊢
+  generalize m.ol = ol
+  generalize m.oc = oc
+  generalize m.ni = ni at hni' ⊢
+  unfold combOnChunkI
+  by_cases heq : si = st.innerSourceIndex
+  · have hb : (si == st.innerSourceIndex) = true := by simpa using heq
+    simp only [hb, if_true]
+    have hin : 0 ≤ si ∧ OS[si.toNat]? = some cfg.innerName := by
+      rcases h.isi with h2 | ⟨h2, h3⟩
+      · omega
+      · rw [heq]; exact ⟨h2, h3⟩
+    have hno := combNoInner_ok cfg st S N OS h chunk m si ol oc ni hin.1 hin.2
+    split
+    · rename_i hfi
+      exact ⟨fun idx _ hf => (by rw [hfi] at hf; cases hf), fun _ => ⟨hno.2.2.2.1, fun _ => hno.2.2.2.2⟩⟩
+    · rename_i idx hfi
+      obtain ⟨f1, f2⟩ := findInner_mem st ol oc idx hfi
+      split
+      · rename_i hge
+        obtain ⟨g1, g2⟩ := h.segs _ f1 _ f2
+        obtain ⟨c1, c2, c3, c4⟩ := combFound_ok cfg st S N OS h chunk m _ ((st.lineData.getD (ol.toNat - 1) {}).chunks.getD idx []) oc ni hge g1 g2 hni'
+        refine ⟨fun idx' _ hf _ => ?_, fun hall => ?_⟩
+        · rw [hfi] at hf; simp only [Option.some.injEq] at hf; subst hf; exact c4
+        · have := hall heq idx hfi; omega
+      · rename_i hlt
+        refine ⟨fun idx' _ hf h0 => ?_, fun _ => ⟨hno.2.2.2.1, fun _ => hno.2.2.2.2⟩⟩
+        rw [hfi] at hf; simp only [Option.some.injEq] at hf; subst hf; omega
+  · have hb : (si == st.innerSourceIndex) = false := by simpa using heq
+    simp only [hb, Bool.false_eq_true, if_false]
+    obtain ⟨a1, a2, a3, a4⟩ := combPass_ok cfg st S N OS h chunk m si ol oc ni
+    exact ⟨fun idx h1 => absurd h1 heq, fun _ => ⟨a4, fun h1 => absurd h1 heq⟩⟩
+
 /-! ### recording the inner stream -/
 
 theorem lmInsert_at_length {α} (d : α) (m : List α) (v : α) : lmInsert d m m.length v = m ++ [v] := by
@@ -896,7 +959,7 @@ theorem combOnSource_ok (cfg : CombCfg) (hI : MapIdxOK cfg.innerMap) (st : CombS
   · simp only [hs, if_true, annS, annN, List.append_nil]
     have hsrc : source = cfg.innerName := by simpa using hs
     have h1 : KInv cfg { st with innerSourceIndex := (OS.length : Int)
-                                 innerSource := (match st.innerSource with | some s => some s | none => content)
+                                 innerSource := st.innerSource.or content
                                  sourceIndexMapping := lmInsert 0 st.sourceIndexMapping OS.length (-2) } S N (OS ++ [source]) :=
       { sm := h.sm, nm := h.nm, nim := h.nim, isim := h.isim, inim := h.inim, segs := h.segs,
         sim := by
@@ -904,7 +967,7 @@ theorem combOnSource_ok (cfg : CombCfg) (hI : MapIdxOK cfg.innerMap) (st : CombS
           rw [lmInsert_at_length [] OS source] at this
           exact this
         isi := Or.inr ⟨by simp only; omega, by simp only [Int.toNat_natCast]; rw [hsrc]; simp⟩ }
-    have hd := streamSM_declOK ((match st.innerSource with | some s => some s | none => content).getD []) cfg.innerMap ⟨cfg.columns, false⟩ hI
+    have hd := streamSM_declOK ((st.innerSource.or content).getD []) cfg.innerMap ⟨cfg.columns, false⟩ hI
     obtain ⟨b1, b2⟩ := innerFold_inv cfg S N (OS ++ [source]) _ _ 0 0 h1 hd (Nat.zero_le _) (Nat.zero_le _)
     exact ⟨trivial, (by first | rfl | trivial), fun t mm hm => (by simp at hm), b1, b2⟩
   · simp only [hs, Bool.false_eq_true, if_false]
